@@ -9,6 +9,11 @@ field).  Shares no code with asyncfix/codec.py.
 SOH = b"\x01"
 
 
+def digits_equal(b, n):
+    """Does the ASCII digit string b denote the integer n? (no int(): Python refuses to convert more than 4300 digits)"""
+    return (b.lstrip(b"0") or b"0") == str(n).encode()
+
+
 def ref_checksum(data: bytes) -> bytes:
     return b"%03d" % (sum(data) % 256)
 
@@ -79,8 +84,8 @@ def ref_check_frame(frame: bytes, begin=b"FIX.4.4"):
             return "trailer: CheckSum field before the end"
     head_len = len(parts[0]) + 1 + len(parts[1]) + 1
     body_len = len(frame) - head_len - (len(parts[-1]) + 1)
-    if int(bl) != body_len:
-        return f"bodylength: declared {int(bl)} actual {body_len}"
+    if not digits_equal(bl, body_len):
+        return f"bodylength: declared {bl[:30]!r} actual {body_len}"
     pre = frame[: len(frame) - len(parts[-1]) - 1]
     if ref_checksum(pre) != v:
         return f"checksum: declared {v!r} actual {ref_checksum(pre)!r}"
@@ -162,7 +167,7 @@ def ref_check_all(frame: bytes, begin=b"FIX.4.4"):
     bl = fields[1][1]
     head_len = len(parts[0]) + 1 + len(parts[1]) + 1
     body_len = len(frame) - head_len - (len(parts[-1]) + 1)
-    if not (bl.isdigit() and bl.isascii()) or int(bl) != body_len:
+    if not (bl.isdigit() and bl.isascii()) or not digits_equal(bl, body_len):
         bad.add("bodylength")
     pre = frame[: len(frame) - len(parts[-1]) - 1]
     if fields[-1][0] == b"10" and ref_checksum(pre) != v:
